@@ -63,6 +63,8 @@ pub struct Ledger {
     zst_born: u64,
     zst_dropped: u64,
     zst_panic_countdown: u64,
+    /// countdown of library-side `Default::default()` constructions until one panics (0 = disarmed)
+    default_panic_countdown: u64,
     pub stats: Stats,
 }
 
@@ -81,6 +83,7 @@ fn with<R>(f: impl FnOnce(&mut Ledger) -> R) -> R {
             zst_born: 0,
             zst_dropped: 0,
             zst_panic_countdown: 0,
+            default_panic_countdown: 0,
             stats: Stats::default(),
         });
     }
@@ -94,6 +97,7 @@ pub fn reset() {
         l.faults.clear();
         l.panic_countdown = 0;
         l.zst_panic_countdown = 0;
+        l.default_panic_countdown = 0;
         l.panicked_id = None;
         l.panic_injected = false;
         l.zst_born = 0;
@@ -170,11 +174,15 @@ pub fn arm_panic(k: u64) {
 pub fn arm_zst_panic(k: u64) {
     with(|l| l.zst_panic_countdown = k)
 }
+pub fn arm_default_panic(k: u64) {
+    with(|l| l.default_panic_countdown = k)
+}
 pub fn disarm() -> bool {
     with(|l| {
-        let was = l.panic_countdown != 0 || l.zst_panic_countdown != 0;
+        let was = l.panic_countdown != 0 || l.zst_panic_countdown != 0 || l.default_panic_countdown != 0;
         l.panic_countdown = 0;
         l.zst_panic_countdown = 0;
+        l.default_panic_countdown = 0;
         was
     })
 }
@@ -288,6 +296,20 @@ impl Default for Val {
     /// Created by the library (`Default::default()` inside a storage): owned by
     /// the world from birth.
     fn default() -> Val {
+        let boom = with(|l| {
+            if l.default_panic_countdown > 0 {
+                l.default_panic_countdown -= 1;
+                if l.default_panic_countdown == 0 {
+                    l.panic_injected = true;
+                    l.stats.injected_panics += 1;
+                    return true;
+                }
+            }
+            false
+        });
+        if boom {
+            panic!("verif: injected panic in Default::default()");
+        }
         Val::born(DEFAULT_PAYLOAD, Origin::Default, Loc::World)
     }
 }
